@@ -11,6 +11,7 @@ CONSTANTS
   SpecialCids = {}
   Journal = TRUE
   Fork = TRUE
+  UserSer = FALSE
   DumpFile = TRUE
   VersionedCids = {}
   QuietCids = {}
